@@ -1600,7 +1600,7 @@ func (self *CallCommand) Decode(buf []byte) error {
 	self.Encoding = uint8(buf[20])
 	self.Charset = uint8(buf[21])
 	self.ContentLen = uint32(buf[22]) | uint32(buf[23])<<8 | uint32(buf[24])<<16 | uint32(buf[25])<<24
-	self.MethodName = strings.Trim(string(buf[26:64]), string([]byte{0}))
+	self.MethodName = strings.TrimRight(string(buf[26:64]), string([]byte{0}))
 	return nil
 }
 
@@ -1672,7 +1672,7 @@ func (self *CallResultCommand) Decode(buf []byte) error {
 	self.Encoding = uint8(buf[21])
 	self.Charset = uint8(buf[22])
 	self.ContentLen = uint32(buf[23]) | uint32(buf[24])<<8 | uint32(buf[25])<<16 | uint32(buf[26])<<24
-	self.ErrType = strings.Trim(string(buf[27:64]), string([]byte{0}))
+	self.ErrType = strings.TrimRight(string(buf[27:64]), string([]byte{0}))
 
 	return nil
 }
@@ -1778,6 +1778,9 @@ func (self *LeaderResultCommand) Decode(buf []byte) error {
 		buf[11], buf[12], buf[13], buf[14], buf[15], buf[16], buf[17], buf[18]
 
 	self.Result, self.HostLen = uint8(buf[19]), uint8(buf[20])
+	if self.HostLen > 43 {
+		return errors.New("host len error")
+	}
 	self.Host = string(buf[21 : 21+self.HostLen])
 	return nil
 }
